@@ -460,9 +460,9 @@ func TestVerifCoop(t *testing.T) {
 	defer out.close()
 	master := vNewRng(vSeed())
 
-	vPureCases(t, out, master, vCases(1500, 40000))
+	vPureCases(t, out, master, vCases(1500, 20000))
 
-	nChan := vCases(70, 1500) // per channel type
+	nChan := vCases(70, 1000) // per channel type
 	for ti, vt := range vChanTypes {
 		a, b, err := CreateTestChannels(t, vt.ct)
 		if err != nil {
